@@ -547,9 +547,10 @@ end
 /-- `RF_::SERIAL_BITS` is a `Long`. -/
 def Info.serialBitsFW (i : Info) : Nat := (1 + i.activeBits + i.resumableBits) % 65536
 
-/-- `ArgsT::SERIAL_BITS` is declared `Short` although it receives `RF_::SERIAL_BITS` (a `Long`);
-it sizes `SerialBuffer = StreamBufferT<SERIAL_BITS>` (forward.hpp). -/
-def Info.argsSerialBits (i : Info) : Nat := i.serialBitsFW % 256
+/-- `ArgsT::SERIAL_BITS = NSerialBits`, a `Long` like the `RF_::SERIAL_BITS` it receives; it sizes
+`SerialBuffer = StreamBufferT<SERIAL_BITS>` (forward.hpp).  (Before /repo commit "fix: keep the
+serialization bit count in a Long inside ArgsT" the member was a `Short`, i.e. `… % 256`.) -/
+def Info.argsSerialBits (i : Info) : Nat := i.serialBitsFW
 
 /-- `RF_::TASK_CAPACITY` is a `Long`. -/
 def Info.taskCapacityFW (i : Info) : Nat := (i.compoProngs * 2) % 65536
